@@ -358,6 +358,9 @@ class Silence:
     def __enter__(self):
         import sys
 
+        self.off = bool(os.environ.get("RSIM_NOSILENCE"))  # (debugging aid: keep fd 1 / 2 open)
+        if self.off:
+            return self
         sys.stdout.flush()
         sys.stderr.flush()
         self.saved = (os.dup(1), os.dup(2))
@@ -370,6 +373,8 @@ class Silence:
     def __exit__(self, *a):
         import sys
 
+        if self.off:
+            return False
         sys.stdout.flush()
         sys.stderr.flush()
         os.dup2(self.saved[0], 1)
